@@ -209,7 +209,8 @@ Inductive op :=
 | Advance (dt : Z)                     (* Redis time passes *)
 | Tick                                 (* the cleaner's timer ticks once *)
 | Fault (g s d : bool)                 (* Down = Fault true true true, Up = Fault false false false *)
-| Corrupt (k : key) (g : nat) (ttl : Z). (* somebody else writes a non-JSON string *)
+| Corrupt (k : key) (g : nat) (ttl : Z) (* somebody else writes a non-JSON string *)
+| QueryCancelled (k : key).           (* QueryRow (PK) / QueryRowIndex (IX) with an already cancelled context *)
 
 Definition step (c : cfg) (s : env * node) (o : op) : env * node * rres :=
   let (e, n) := s in
@@ -223,6 +224,9 @@ Definition step (c : cfg) (s : env * node) (o : op) : env * node * rres :=
   | Tick => (e, do_tick n, ROk)
   | Fault g s d => (e, set_faults n g s d, ROk)
   | Corrupt k g ttl => (e, r_setex n k (VBad g) ttl, ROk)
+  (* node.go:169-175 doGetCache: rds.GetCtx under a cancelled context answers context.Canceled, which doTake
+     returns as it is (node.go:196-202): no database query, nothing stored *)
+  | QueryCancelled k => (e, n, RCtxErr)
   end.
 
 Definition step_st (c : cfg) (s : env * node) (o : op) : env * node := fst (step c s o).
@@ -312,6 +316,7 @@ Section Cluster.
     | COp Tick => (e, map do_tick ns, ROk)
     | COp (Fault g s d) => (e, map (fun n => set_faults n g s d) ns, ROk)
     | COp (Corrupt k g ttl) => (e, fst (on_node ns k tt (fun n => (r_setex n k (VBad g) ttl, tt))), ROk)
+    | COp (QueryCancelled k) => (e, ns, RCtxErr)
     end.
 
   Definition cstep_st (c : cfg) (s : env * list node) (o : cop) : env * list node := fst (cstep c s o).
